@@ -116,7 +116,7 @@ CHECKS = {
                         "subscribers are well-behaved (keep receiving until their channel is closed)"],
     },
     "C01": {
-        "profile": "chainsim", "pkg": "chain", "test": "TestC01", "level": "exploration", "env": {"VERIF_PROP": "C01"},
+        "profile": "chainsim", "pkg": "chain", "batch": 50, "test": "TestC01", "level": "exploration", "env": {"VERIF_PROP": "C01"},
         "quick": {"workers": 8, "checks": 150}, "thorough": {"workers": 14, "checks": 6000},
         "timeout": {"quick": "25m", "thorough": "6h"}, "shrinktime": "90s",
         "rule": "chainsim: per run 2-5 whole nodes and 4-9 validators (drawn BFT weights incl. stand-by generators, batch size, block time 2/5/10 s, thresholds, block cache size, event retention), a drawn schedule of up to 3 validator-set/threshold changes, 10-120 blocks of simulated time; drawn faults: gossip latency 1-3200 ms, loss 0/5/20 %, duplication 0/10 %, up to 3 partitions with heal, up to 3 crash+restart (graceful, kill, power loss) of nodes, clock skew up to 1.5 s, sync RPC timeouts/errors/truncation/bit flips. Oracle: one block id per height across everything any view (node, over its whole life) reports as final (height <= its precommitted height); verdicts only while every honest validator's signed headers are pairwise non-contradicting (checked from the generator DBs) and thresholds are floor(2W/3)+1. distinct = distinct (configuration, end state)",
@@ -127,7 +127,7 @@ CHECKS = {
                         "sync RPCs of one processing step see a frozen network (the remote state does not change during the step)", "reference models: DESIGN Appendix A"],
     },
     "C02": {
-        "profile": "chainsim", "pkg": "chain", "test": "TestC02", "level": "exploration", "env": {"VERIF_PROP": "C02"},
+        "profile": "chainsim", "pkg": "chain", "batch": 50, "test": "TestC02", "level": "exploration", "env": {"VERIF_PROP": "C02"},
         "quick": {"workers": 8, "checks": 150}, "thorough": {"workers": 14, "checks": 6000},
         "timeout": {"quick": "25m", "thorough": "6h"}, "shrinktime": "90s",
         "rule": 'chainsim: per run 2-5 whole nodes and 4-9 validators (drawn BFT weights incl. stand-by generators, batch size, block time 2/5/10 s, thresholds, block cache size, event retention), a drawn schedule of up to 3 validator-set/threshold changes, 10-120 blocks of simulated time; drawn faults: gossip latency 1-3200 ms, loss 0/5/20 %, duplication 0/10 %, up to 3 partitions with heal, up to 3 crash+restart (graceful, kill, power loss) of nodes, clock skew up to 1.5 s, sync RPC timeouts/errors/truncation/bit flips. Oracle: after every block applied on every node (and after restarts) the three BFT heights, per-block prevote/precommit weights, per-validator vote info, parameters for every window height and the stored parameter keys equal an independent persistent LIP-0058 reference evaluated on the fork tree; nodes with equal tips agree; bounded finality in fault-free runs',
@@ -138,7 +138,7 @@ CHECKS = {
                         "sync RPCs of one processing step see a frozen network (the remote state does not change during the step)", "reference models: DESIGN Appendix A"],
     },
     "C04": {
-        "profile": "chainsim", "pkg": "chain", "test": "TestC04", "level": "exploration", "env": {"VERIF_PROP": "C04"},
+        "profile": "chainsim", "pkg": "chain", "batch": 50, "test": "TestC04", "level": "exploration", "env": {"VERIF_PROP": "C04"},
         "quick": {"workers": 8, "checks": 150}, "thorough": {"workers": 14, "checks": 6000},
         "timeout": {"quick": "25m", "thorough": "6h"}, "shrinktime": "90s",
         "rule": 'chainsim: per run 2-5 whole nodes and 4-9 validators (drawn BFT weights incl. stand-by generators, batch size, block time 2/5/10 s, thresholds, block cache size, event retention), a drawn schedule of up to 3 validator-set/threshold changes, 10-120 blocks of simulated time; drawn faults: gossip latency 1-3200 ms, loss 0/5/20 %, duplication 0/10 %, up to 3 partitions with heal, up to 3 crash+restart (graceful, kill, power loss) of nodes, clock skew up to 1.5 s, sync RPC timeouts/errors/truncation/bit flips. Oracle: with every applied block the stored finalized height equals max(previous, precommitted height after the block) in that database state; it never decreases across reorgs, syncs and restarts; block ids at finalized heights never change; one finalize event per raise',
@@ -149,7 +149,7 @@ CHECKS = {
                         "sync RPCs of one processing step see a frozen network (the remote state does not change during the step)", "reference models: DESIGN Appendix A"],
     },
     "C05": {
-        "profile": "chainsim", "pkg": "chain", "test": "TestC05", "level": "exploration", "env": {"VERIF_PROP": "C05"},
+        "profile": "chainsim", "pkg": "chain", "batch": 50, "test": "TestC05", "level": "exploration", "env": {"VERIF_PROP": "C05"},
         "quick": {"workers": 8, "checks": 150}, "thorough": {"workers": 14, "checks": 6000},
         "timeout": {"quick": "25m", "thorough": "6h"}, "shrinktime": "90s",
         "rule": 'chainsim: per run 2-5 whole nodes and 4-9 validators (drawn BFT weights incl. stand-by generators, batch size, block time 2/5/10 s, thresholds, block cache size, event retention), a drawn schedule of up to 3 validator-set/threshold changes, 10-120 blocks of simulated time; drawn faults: gossip latency 1-3200 ms, loss 0/5/20 %, duplication 0/10 %, up to 3 partitions with heal, up to 3 crash+restart (graceful, kill, power loss) of nodes, clock skew up to 1.5 s, sync RPC timeouts/errors/truncation/bit flips. Oracle: right after every block deletion any node performs (tie break, sync, restore) its blockchain DB dump equals the dump taken before that block was applied, except the monotone finalized marker, pruned diffs/events and the requested temp block; cached tip = parent',
@@ -160,7 +160,7 @@ CHECKS = {
                         "sync RPCs of one processing step see a frozen network (the remote state does not change during the step)", "reference models: DESIGN Appendix A"],
     },
     "C15": {
-        "profile": "chainsim", "pkg": "chain", "test": "TestC15", "level": "exploration", "env": {"VERIF_PROP": "C15"},
+        "profile": "chainsim", "pkg": "chain", "batch": 50, "test": "TestC15", "level": "exploration", "env": {"VERIF_PROP": "C15"},
         "quick": {"workers": 8, "checks": 150}, "thorough": {"workers": 14, "checks": 6000},
         "timeout": {"quick": "25m", "thorough": "6h"}, "shrinktime": "90s",
         "rule": "chainsim: per run 2-5 whole nodes and 4-9 validators (drawn BFT weights incl. stand-by generators, batch size, block time 2/5/10 s, thresholds, block cache size, event retention), a drawn schedule of up to 3 validator-set/threshold changes, 10-120 blocks of simulated time; drawn faults: gossip latency 1-3200 ms, loss 0/5/20 %, duplication 0/10 %, up to 3 partitions with heal, up to 3 crash+restart (graceful, kill, power loss) of nodes, clock skew up to 1.5 s, sync RPC timeouts/errors/truncation/bit flips. A client workload sends transactions of the simulation module (2-6 accounts, consecutive nonces, nonce gaps, replacements/stale nonces, sizes 110-600 bytes, one distinct integer fee priority per transaction, and fillers sized so that a node's processable transactions add up to the payload limit exactly; payload limit drawn in 300-15000 bytes) through each node's pool gossip entry. Oracles: every block a node's generator hands on is accepted by that node's own processing in the same step (roots, aggregate commit, payload); its payload against the selection rule evaluated on the node's processable transactions and account nonces read right before generation: each transaction is the next of its sender, no candidate with a higher fee priority that verifies and fits is passed over, a sender whose candidate failed is not used again, payload <= limit, and the block does not end while the best remaining verifying candidate fits; all headers a validator key ever signed (from its generator DB, across chain switches, syncs and restarts) are pairwise non-contradicting by the reference predicate",
@@ -171,7 +171,7 @@ CHECKS = {
                         "sync RPCs of one processing step see a frozen network (the remote state does not change during the step)", "reference models: DESIGN Appendix A"],
     },
     "C13": {
-        "profile": "chainsim", "pkg": "chain", "test": "TestC13", "level": "exploration", "env": {"VERIF_PROP": "C13"},
+        "profile": "chainsim", "pkg": "chain", "batch": 50, "test": "TestC13", "level": "exploration", "env": {"VERIF_PROP": "C13"},
         "quick": {"workers": 8, "checks": 150}, "thorough": {"workers": 14, "checks": 6000},
         "timeout": {"quick": "25m", "thorough": "6h"}, "shrinktime": "90s",
         "rule": "chainsim + simfs: per run a simulated network of 2-4 whole nodes (3-6 validators, drawn weights/thresholds/validator changes, gossip faults, up to 3 partitions with heal) produces the stream of chain operations one of its nodes performs (add block on tip / remove tip block, incl. finality-advancing blocks and synthetic remove+re-add of the tip); a victim node and a twin outside the network apply that stream through processValidated/deleteBlock. For a third of the operations the victim's disk is armed to die at a drawn file-system call (1-5, sometimes 6-20) counted from the start of the operation - torn write (0/1/7/64 bytes or whole), then power loss (un-synced data dropped) or process kill (kept), or an injected I/O error (pebble exits) - the node is restarted (recovery itself crashed again in a fifth of the cases) and retried up to 3 times. Oracles: restart succeeds; the blockchain DB found equals the twin's before-image or after-image key for key; reported tip/BFT heights/finalized height and the application's state entries match that image; after completion DB and tip equal the twin's",
@@ -181,7 +181,7 @@ CHECKS = {
         "assumptions": ["durability model = pebble's strict MemFS: data is durable once the file was synced and its directory entry synced; a torn write leaves a prefix", "the twin (same code, no faults) defines the before/after images: a defect that corrupts both the same way without a crash is other checks' business (C02, C04, C05)", "map iteration order inside diffdb's cache is canonicalised in the overlay so that two nodes produce byte-identical diffs"],
     },
     "C19": {
-        "profile": "chainsim", "pkg": "chain", "test": "TestC19", "level": "exploration", "env": {"VERIF_PROP": "C19"},
+        "profile": "chainsim", "pkg": "chain", "batch": 50, "test": "TestC19", "level": "exploration", "env": {"VERIF_PROP": "C19"},
         "quick": {"workers": 8, "checks": 60}, "thorough": {"workers": 14, "checks": 3000},
         "timeout": {"quick": "25m", "thorough": "6h"}, "shrinktime": "90s",
         "rule": "chainsim: per run 3-6 whole nodes and 4-9 validators (in half of the runs some validators, < 1/3 of the weight, belong to a two-headed Byzantine adversary; in a third of the runs 1-4 phantom peers advertise fabricated tips redrawn every 3 s around the honest tips), validator changes, small block caches, 15-90 blocks of faults: gossip latency/loss/duplication, partitions, crash+restart with outages of up to 60 slots (forcing block synchronization), sync RPC timeouts/errors/truncation/bit flips; then faults stop (heal, bans lifted, reliable RPCs, adversary and phantoms gone) for 4 rounds of block slots. Oracles: (1) every un-faulted handler response of an honest node: getLastBlock = its tip, getHighestCommonBlock = highest requested id on its own chain (or empty), getBlocksFromId = the consecutive blocks after the id on its chain, ascending, at most 103; (2) the peer a block sync continues with is allowed by the rule (largest maxHeightPrevoted, then height, then most common id, ties free) evaluated on the answers it actually received; (3) a fast chain switch ends on the triggering block or on the tip it started from, a rolled-back switch bans the serving peer; (4) after the quiet phase all honest nodes agree on the block below the lowest tip and tips differ by at most 2; (5) no node step spins (download loop) or panics",
@@ -191,7 +191,7 @@ CHECKS = {
         "assumptions": ["sync RPCs of one processing step see a frozen network", "the goroutines of the sync code (per-peer requests, downloader) run in place, in program order: their interleavings are not explored here", "the response cap 103 is the protocol's (one round); the quiet-phase budget of 4 rounds is this check's choice", "map iteration over the id frequencies in peer selection is canonicalised (ties)"],
     },
     "C03": {
-        "profile": "chainsim", "pkg": "chain", "test": "TestC03", "level": "exploration", "env": {"VERIF_PROP": "C03"},
+        "profile": "chainsim", "pkg": "chain", "batch": 50, "test": "TestC03", "level": "exploration", "env": {"VERIF_PROP": "C03"},
         "quick": {"workers": 8, "checks": 100}, "thorough": {"workers": 14, "checks": 5000},
         "timeout": {"quick": "25m", "thorough": "6h"}, "shrinktime": "90s",
         "rule": "chainsim: per run 2-4 whole nodes, 4-8 validators, validator changes, small caches, 10-70 blocks under gossip latency/loss/duplication, partitions, crash+restart, clock skew and sync RPC faults. Fault under test: a tampering peer. For one in six deliveries of a block signed by an honest validator to a node whose tip is its parent (a valid successor of that node's reachable state) the node is first offered 1-6 drawn single-rule mutants of it through the gossip validator, event handler and consensus loop: version, height+-1, previousBlockID, slot not after the tip's, future slot, generator that does not own the slot (signing with its own key), signature by another key, flipped signature bit, signature for another chain ID, transaction/asset/event/state root, validatorsHash, maxHeightPrevoted+-1, maxHeightGenerated contradicting the generator's last header on that chain (per the reference predicate), aggregate commit (height, forged bits+signature, bits only; for certificate-carrying blocks: signature bit, height, bits, dropped), payload changed under the same root, a statically invalid transaction under a matching root, assets changed under the same root. Every header mutant is re-signed with the right key so that only the rule under test can reject it. Oracles after each mutant: not appended; tip, complete blockchain DB dump and application state DB dump unchanged; no new-block/delete/finalize/validator-change event published (mutants that made the node query its peers give no state verdict); a panic or hang while handling a mutant is reported too",
@@ -201,7 +201,7 @@ CHECKS = {
         "assumptions": ["a block signed by an honest validator's key and linking to a node's tip is a valid successor for that node (same chain, same state)", "mutants altering several rules at once are not generated; size-limit and fully executable statically-invalid payloads need the transaction workload (see DESIGN)"],
     },
     "C06": {
-        "profile": "chainsim", "pkg": "chain", "test": "TestC06", "level": "exploration", "env": {"VERIF_PROP": "C06"},
+        "profile": "chainsim", "pkg": "chain", "batch": 50, "test": "TestC06", "level": "exploration", "env": {"VERIF_PROP": "C06"},
         "quick": {"workers": 8, "checks": 60}, "thorough": {"workers": 14, "checks": 3000},
         "timeout": {"quick": "30m", "thorough": "6h"}, "shrinktime": "90s",
         "rule": "chainsim: per run 2-4 whole nodes and 3-10 validators (drawn weights incl. stand-by generators, drawn certificate/precommit thresholds, up to 3 validator-set changes), chains of 20-110 or 120-260 blocks (the latter leave the first 100 heights, where the commit window arithmetic differs), gossip latency/loss/duplication, partitions, crash+restart. The nodes certify, gossip, pool and aggregate single commits themselves. Added fault: a certificate forger holding every BLS key, acting every 7 s of simulated time. Oracles: (1) after every generator tick, GetAggregateCommit of the node's pool and chain is accepted by the node's own verifyAggregateCommit; (2) forged aggregate commits for the node's chain - drawn height around (certified, precommitted], around the next parameter change and beyond; drawn signer subset; tampering none / signatures over another block / flipped signature bit / a claimed signer that did not sign / bits in descending key order / truncated bits / zero-padded bits - are accepted exactly when the construction says so: un-tampered, signer weight >= certificate threshold of that height, certified < height <= precommitted, height <= (first parameter height > certified+1) - 1; the bit layout is the harness's own (ascending BLS key order, LSB first); zero padding gives no verdict; (3) forged single commits (drawn validator, height, block id, key) offered through the gossip validator: one that is in the pool afterwards must be by a validator with BFT weight at that height and carry its signature over the certificate of the node's own block at that height; (4) no panic in either verifier",
@@ -211,7 +211,7 @@ CHECKS = {
         "assumptions": ["BLS signing/aggregation primitives (blst through pkg/crypto) are trusted; the oracle never verifies a signature itself, it knows what it signed", "heights, thresholds and parameter sets the oracle uses come from the reference BFT model of the node's tip (DESIGN A.1), not from the node", "genesis height is 0 (a non-zero genesis height does not start, see DESIGN observations)"],
     },
     "C07": {
-        "profile": "chainsim", "pkg": "chain", "test": "TestC07", "level": "exploration", "env": {"VERIF_PROP": "C07"},
+        "profile": "chainsim", "pkg": "chain", "batch": 50, "test": "TestC07", "level": "exploration", "env": {"VERIF_PROP": "C07"},
         "quick": {"workers": 8, "checks": 120}, "thorough": {"workers": 14, "checks": 6000},
         "timeout": {"quick": "25m", "thorough": "6h"}, "shrinktime": "90s",
         "rule": "chainsim: per run 2-5 whole nodes, 4-9 validators of which some (< 1/3 of the weight) belong to a two-headed Byzantine adversary (double forging, false maxHeightGenerated, withheld, partial and late blocks), validator changes, gossip latency up to several slots, loss, duplication, partitions, crash+restart, clock skew up to 1.5 s, sync RPC faults; 15-100 blocks. Oracles: (1) every block a node's consensus loop takes from its queue is classified by the reference fork choice (LIP-0014 case order: identical, extends tip, double forging, tie break, better chain by (maxHeightPrevoted, height), discard) from the tip, the incoming header, the slot in which that tip came in over the network (none for synced blocks) and the receiving slot on the node's own clock; the node's reaction must fit: nothing for identical/double forging/discard; exactly one append and no removal or sync request for a successor; remove-tip + append (or re-append) for a tie break; the sync branch for a better chain; (2) the node's contradiction predicate in both argument orders against the reference predicate on every pair (new header, up to 40 earlier headers of the same generator seen in the run, honest or Byzantine, applied or only signed), and on pairs of different generators; (3) an applied block never contradicts its generator's most recent header in the window of the chain it extends (reference state of the parent)",
@@ -221,7 +221,7 @@ CHECKS = {
         "assumptions": ["the exhaustive enumeration of header pairs over small field ranges asked for by the property's quantifier is a pure-function check outside this technique: pairs come from simulated histories only (DESIGN 5)", "the sync branch is observed through the node's own log line, every other reaction through events and requests"],
     },
     "C09": {
-        "profile": "chainsim", "pkg": "chain", "test": "TestC09", "level": "exploration", "env": {"VERIF_PROP": "C09"},
+        "profile": "chainsim", "pkg": "chain", "batch": 50, "test": "TestC09", "level": "exploration", "env": {"VERIF_PROP": "C09"},
         "quick": {"workers": 8, "checks": 100}, "thorough": {"workers": 14, "checks": 5000},
         "timeout": {"quick": "25m", "thorough": "6h"}, "shrinktime": "90s",
         "rule": "chainsim: per run 2-4 whole nodes and 4-10 validators exchanging real blocks, single commits and sync RPCs for 15-80 blocks under gossip faults, partitions, crash+restart. Untrusted input from three fault sources: (1) a hostile peer every 0.7 s of simulated time: a corrupted copy of a payload the honest nodes exchanged (or a synthetic transaction) - truncated at a drawn offset, a flipped bit, a byte set to 00/7f/80/ff, a five-byte maximal varint inserted, a slice duplicated or dropped, trailing bytes, empty, a few random bytes - pushed through the gossip validator + handler of postBlock / postSingleCommits / postTransactionsAnnouncement or the RPC handler of getLastBlock / getHighestCommonBlock / getBlocksFromId / getTransactions; and crafted messages that pass the cheap checks: a correctly signed successor block whose aggregate commit has 1-3 arbitrary bitmap bytes and a 96-byte (or shorter) non-signature, a single commit by a real validator for a real block whose signature is all-ff / all-zero / the point at infinity / random; (2) sync responses of honest peers truncated or bit-flipped at a drawn position; (3) the single-rule block mutants of C03. Oracle: the simulator's process model - a panic inside any node step (the process would die) or a step that issues more than 3000 requests (the consensus loop never returns) is a violation with the step's input as witness; a run exceeding 300 s wall is reported as infrastructure failure, not as a verdict",
